@@ -41,6 +41,9 @@ THEOREMS = [
     "MysticVerif.C09.update_best_last_tie",
     "MysticVerif.C09.update_best_prev_irrelevant",
     "MysticVerif.C09.update_best_empty",
+    # a reduction REPEATED over the same members (Step loops, Solve(step=True), Steps followed by Solve): `_bestSolver` threaded
+    "MysticVerif.C09.reduce_seq_min",
+    "MysticVerif.C09.reduce_seq_live_slots_kept",
     "MysticVerif.C09.totals",
     "MysticVerif.C09.member_count",
     "MysticVerif.C09.member_inherits",
@@ -59,6 +62,12 @@ THEOREMS = [
     "MysticVerif.C09.finished_member_not_advanced",
     "MysticVerif.C09.member_steps_eq_run",
     "MysticVerif.C09.step_mode_eq_solve",
+    "MysticVerif.C09.member_steps_then_solve",
+    "MysticVerif.C09.steps_then_solve_eq_solve",
+    # the one-liners lattice() / buckshot() / sparsity(): from the arguments to the members' configuration
+    "MysticVerif.C09.oneliner_termination",
+    "MysticVerif.C09.oneliner_members_inherit",
+    "MysticVerif.C09.oneliner_kinds_agree",
     # fillpts / SparsitySolver._InitialPoints: the deterministic contract around the optimisation runs
     "MysticVerif.C09.fillpts_count",
     "MysticVerif.C09.fillpts_in_range",
@@ -66,7 +75,8 @@ THEOREMS = [
     "MysticVerif.C09.holes_tol_prefers_points_inside_the_radius",
 ]
 
-STREAMS = ["grid", "lattice", "samples", "dsamples", "rbin", "ensemble", "ensrun", "fill"]
+STREAMS = ["grid", "lattice", "samples", "dsamples", "rbin", "ensemble", "ensrun", "enslead", "oneliner", "fill"]
+ENS_STREAMS = ("ensemble", "ensrun", "enslead", "oneliner")
 
 
 def vecf(x):
@@ -1007,6 +1017,518 @@ def gen_ensemble(rng, tier):
     return c
 
 
+def lattice_centres(lo, hi, nbins):
+    bins = [[a + (j + 0.5) * (b - a) / n for j in range(n)] for a, b, n in zip(lo, hi, nbins)]
+    return [list(t) for t in itertools.product(*bins)]
+
+
+def gen_multiwell_cost(rng, dim, lo, hi, centres=None, cell=None):
+    """min_j (a_j * |x - c_j|^2 - d_j): wells of different depth d_j and steepness a_j.  A member that starts near (or at the
+    bottom of) a shallow well leads at first; one that starts on the slope of a deeper, steeper well has a high energy at
+    first and overtakes after some iterations: WHICH member is the best changes during the run, so a reduction repeated
+    over the same members (step-wise modes) must really look at all of them every time.  `centres` = the members' starting
+    points where they are known at generation time (lattice): part of the wells sit at / near them."""
+    w = [b - a for a, b in zip(lo, hi)]
+    wm = sum(w) / len(w)
+    cell = cell or [0.5 * v for v in w]
+    nw = rng.randint(2, 5)
+    depths = rng.sample([0.5, 1.0, 2.0, 3.0, 5.0, 8.0, 13.0, 21.0], nw)
+    wells = []
+    for j in range(nw):
+        if centres and rng.random() < 0.65:
+            base = rng.choice(centres)
+            off = rng.choice([0.0, 0.0, 0.125, 0.25, 0.375])       # fraction of the member's own cell: the well stays inside it
+            cj = [b + off * rng.choice([-1.0, 1.0]) * cw for b, cw in zip(base, cell)]
+        else:
+            cj = [a + v * rng.random() for a, v in zip(lo, w)]
+        aj = rng.choice([0.5, 2.0, 8.0, 32.0, 128.0]) / (wm * wm)
+        wells.append((aj, cj, depths[j]))
+    e = None
+    for aj, cj, dj in wells:
+        t = ("-", ("*", ("c", aj), ("sum",) + tuple(("sq", ("-", ("x", i), ("c", cj[i]))) for i in range(dim))), ("c", dj))
+        e = t if e is None else ("min", e, t)
+    return ("scalar", e)
+
+
+LEAD_MODES = ["steps", "steps", "solve-step", "solve-step", "steps+solve", "steps+solve-step"]
+
+
+def gen_enslead(rng, tier):
+    """step-wise ensembles in which the lead changes hands: >= 2 members, a multi-well cost, members that run for tens of
+    iterations, a reduction after every ensemble Step (manual Step loop, Solve(step=True), Steps followed by Solve() /
+    Solve(step=True)); every nested solver, map order, pickling transport (the stored best is then a STALE object)"""
+    c = gen_ensemble(rng, tier)
+    for f in ("instance", "inst_monitors", "reuse", "ftol", "gtol", "dist", "sdist", "rerun_solve"):
+        c.pop(f, None)
+    c["api"] = "class"
+    dim = c["dim"]
+    if not c.get("ranges") or rng.random() < 0.5:
+        centre = [dyadic(rng, -3, 3, 4) for _ in range(dim)]
+        lo, hi, _ = solvergen.gen_box(rng, dim, centre, "finite")
+        c["ranges"] = (lo, hi, None, rng.choice([None, None, True]))
+    lo, hi = c["ranges"][0], c["ranges"][1]
+    if requested_count(c) < 2:
+        if c["kind"] == "lattice":
+            c.pop("N", None)
+            nb = [1] * dim; nb[rng.randrange(dim)] = rng.choice([2, 3, 4])
+            if dim > 1 and rng.random() < 0.5:
+                nb[rng.randrange(dim)] = 2
+            c["nbins"] = nb
+        else:
+            c["npts"] = rng.choice([2, 3, 4]) if c["kind"] == "buckshot" else rng.choice([2, 3])
+    centres = cell = None
+    if c["kind"] == "lattice" and "nbins" in c:
+        centres = lattice_centres(lo, hi, c["nbins"]); cell = [(b - a) / n for a, b, n in zip(lo, hi, c["nbins"])]
+    c["cost"] = gen_multiwell_cost(rng, dim, lo, hi, centres, cell)
+    c["nested"] = rng.choice(["NM", "NM", "NM", "Powell", "DE", "DE2"])
+    c.pop("NP", None)
+    if c["nested"] in ("DE", "DE2"):
+        c["NP"] = rng.randint(4, 7)
+    c.pop("constraints", None)
+    if c.get("penalty") is not None and rng.random() < 0.6:
+        c.pop("penalty")
+    c["mode"] = rng.choice(LEAD_MODES)
+    long_ = c["nested"] == "NM"
+    c["limits"] = (rng.choice([12, 20, 30, 40] if long_ else [3, 5, 8, 12]), rng.choice([None, None, 400]))
+    c["termination"] = rng.choice([None, ("never",), ("NCOG", 1e-6, 5), ("COG", 1e-6, 5), ("VTR", 1e-4, -100.0)])
+    nm_ = requested_count(c)
+    if c.get("transport") and nm_ * c["limits"][0] > 80:
+        # a pickling map serialises every member (with its whole monitor history) at every ensemble Step: keep it short
+        c["limits"] = (max(4, 80 // nm_), c["limits"][1])
+    elif nm_ * c["limits"][0] > 200:
+        c["limits"] = (max(4, 200 // nm_), c["limits"][1])
+    if c["mode"] == "steps":
+        c["nsteps"] = rng.randint(4, c["limits"][0] + 3)
+    elif c["mode"].startswith("steps+"):
+        c["nsteps"] = rng.randint(1, max(2, c["limits"][0] // 2))
+    if c["nested"] == "NM" and c["mode"] == "solve-step" and rng.random() < 0.5:
+        c["rerun_solve"] = True
+    return c
+
+
+GTOL_CHOICES = [None, None, 0, 0, 1, 2, 3, 5, 10]
+
+
+def gtol_class(c):
+    kw = c.get("kw") or {}
+    if "gtol" in kw.get("omit", ()):
+        return "omitted"
+    g = c["gtol"]
+    return "None" if g is None else ("0" if not g else "positive")
+
+
+def gen_oneliner(rng, tier):
+    """the keyword plumbing of lattice() / buckshot() / sparsity(): every documented keyword given / omitted (its default) /
+    given as None or 0 where that has a meaning (gtol falsy = 'no generation count: VTRChangeOverGeneration(ftol)'; maxiter,
+    maxfun, rtol, tightrange, cliprange None), the first argument a tuple / an integer / omitted (8)"""
+    kind = rng.choice(["lattice", "buckshot", "sparsity"])
+    dim = rng.randint(1, 3)
+    c = {"kind": kind, "dim": dim, "api": "wrapper", "mode": "solve", "oneliner": True}
+    omit = []; explicit_none = []
+    centre = [dyadic(rng, -3, 3, 4) for _ in range(dim)]
+    if rng.random() < 0.85:
+        lo, hi, bk = solvergen.gen_box(rng, dim, centre, rng.choice(["finite", "finite", "integer"]))
+        tight, clip = rng.choice([(None, None), (None, None), (None, None), (True, None), (False, None), (True, True), (None, True)])
+        c["ranges"] = (lo, hi, tight, clip)
+        for nm, v in (("tightrange", tight), ("cliprange", clip)):
+            if v is None:
+                (explicit_none if rng.random() < 0.3 else omit).append(nm)
+    else:
+        omit += ["bounds", "tightrange", "cliprange"]
+    if kind == "lattice":
+        t = rng.random()
+        if t < 0.6:
+            nb = [rng.choice([1, 1, 2, 2, 3]) for _ in range(dim)]
+            while np.prod(nb) > 9:
+                nb[rng.randrange(dim)] = 1
+            c["nbins"] = nb
+        elif t < 0.9:
+            c["N"] = rng.choice([1, 2, 3, 4, 5, 6, 8])
+        else:
+            c["N"] = 8; omit.append("nbins")
+    else:
+        if rng.random() < (0.12 if kind == "buckshot" else 0.06):
+            c["npts"] = 8; omit.append("npts")
+        else:
+            c["npts"] = rng.choice([1, 2, 3, 4, 5, 6]) if kind == "buckshot" else rng.choice([1, 2, 3])
+        if kind == "sparsity":
+            t = rng.random()
+            if t < 0.5:
+                c["rtol"] = None; omit.append("rtol")
+            elif t < 0.7:
+                c["rtol"] = None; explicit_none.append("rtol")
+            else:
+                c["rtol"] = 0.3
+    if rng.random() < 0.3:
+        c["nested"] = "NM"; omit.append("solver")
+    else:
+        c["nested"] = rng.choice(NESTED)
+    if c["nested"] in ("DE", "DE2"):
+        c["NP"] = rng.randint(4, 7)
+    k = rng.random()
+    if k < 0.35:
+        c["cost"] = solvergen.gen_cost(rng, dim, allow_vector=False)           # minimum value 0: the value-to-reach stop can fire
+    elif k < 0.6:
+        base = solvergen.gen_cost(rng, dim, allow_vector=False)
+        c["cost"] = ("scalar", ("+", base[1], ("c", rng.choice([-3.0, 2.5, 10.0]))))
+    elif k < 0.85:
+        lo, hi = (c["ranges"][0], c["ranges"][1]) if c.get("ranges") else ([v - 2.0 for v in centre], [v + 2.0 for v in centre])
+        cen = cell = None
+        if kind == "lattice" and "nbins" in c and c.get("ranges"):
+            cen = lattice_centres(lo, hi, c["nbins"]); cell = [(b - a) / n for a, b, n in zip(lo, hi, c["nbins"])]
+        c["cost"] = gen_multiwell_cost(rng, dim, lo, hi, cen, cell)
+    else:
+        c["cost"] = gen_plateau_cost(rng, dim)
+    if rng.random() < 0.3:
+        box = (c["ranges"][0], c["ranges"][1]) if c.get("ranges") else None
+        con = solvergen.gen_constraints(rng, dim, box)
+        okc = True
+        if box is not None:
+            for pt in [list(box[0]), list(box[1]), [0.5 * (a + b) for a, b in zip(*box)]]:
+                y = dsl.con_apply(con, pt)
+                if any(not (a <= v <= b) for v, a, b in zip(y, box[0], box[1])) or not same_vec(dsl.con_apply(con, y), y):
+                    okc = False
+        if okc:
+            c["constraints"] = con
+    if "constraints" not in c:
+        omit.append("constraints")
+    if rng.random() < 0.3:
+        c["penalty"] = solvergen.gen_penalty(rng, dim)
+    else:
+        omit.append("penalty")
+    if rng.random() < 0.3:
+        c["ftol"] = 1e-4; omit.append("ftol")
+    else:
+        c["ftol"] = rng.choice([1e-4, 1e-2, 1e-8, 0.05, 0.5, 2.0])
+    if rng.random() < 0.2:
+        c["gtol"] = 10; omit.append("gtol")
+    else:
+        c["gtol"] = rng.choice(GTOL_CHOICES)
+    lim = []
+    for nm, p_omit, vals in (("maxiter", 0.25, [1, 2, 3, 5, 8, 12, 20, 50]), ("maxfun", 0.4, [1, 5, 20, 60, 200])):
+        t = rng.random()
+        if t < p_omit:
+            lim.append(None); omit.append(nm)
+        elif t < p_omit + 0.15:
+            lim.append(None); explicit_none.append(nm)
+        else:
+            lim.append(rng.choice(vals))
+    if lim[0] is None and lim[1] is None and c["nested"] in ("DE", "DE2"):
+        lim[0] = rng.choice([5, 12, 20])
+        for l_ in (omit, explicit_none):
+            if "maxiter" in l_:
+                l_.remove("maxiter")
+    c["limits"] = tuple(lim)
+    if rng.random() < 0.3:
+        c["map"] = "builtin"; omit.append("map")
+    else:
+        c["map"] = rng.choice(["fwd", "rev", "shuffle"])
+        if rng.random() < 0.2:
+            c["transport"] = "pickle"
+    c["map_seed"] = rng.randrange(2 ** 31)
+    if kind != "buckshot" and rng.random() < 0.15:
+        c["dist"] = rng.choice([0.01, 0.25, 2.0])
+    elif kind == "buckshot" and c.get("ranges") and rng.random() < 0.3:
+        it = pick_servable_item(rng, c["ranges"][0], c["ranges"][1])
+        if it is not None:
+            c["sdist"] = it
+    if not c.get("dist") and not c.get("sdist"):
+        omit.append("dist")
+    kw = {"omit": omit, "none": explicit_none, "full_output": rng.random() < 0.7, "retall": rng.random() < 0.3,
+          "args": rng.random() < 0.3, "callback": rng.random() < 0.25, "monitors": rng.random() < 0.3,
+          "id": rng.choice([0, 3, 10]) if rng.random() < 0.2 else None, "step": rng.random() < 0.08}
+    c["kw"] = kw
+    c["seed"] = rng.randrange(2 ** 31)
+    return c
+
+
+ENS_CLASS = {"lattice": "LatticeSolver", "buckshot": "BuckshotSolver", "sparsity": "SparsitySolver"}
+
+
+def requested_termination(c):
+    """the termination the one-liner's ftol / gtol arguments stand for (docstrings of lattice/buckshot/sparsity: `ftol`
+    acceptable relative error for convergence, `gtol` maximum iterations to run without improvement, default 10; a falsy
+    gtol - None or 0 - is mystic's convention for 'no generation count': the value-to-reach stop, as in
+    diffev(..., gtol=None)), built here from mystic.termination directly"""
+    import mystic.termination as T
+    if c["gtol"]:
+        return T.NormalizedChangeOverGeneration(c["ftol"], c["gtol"])
+    return T.VTRChangeOverGeneration(c["ftol"])
+
+
+def ens_cfg_view(ens, tstate):
+    return {"npts": int(ens._npts), "rtol": getattr(ens, "_rtol", None), "id": ens.id, "dist": ens._dist,
+            "nslots": len(ens._allSolvers)}
+
+
+def run_oneliner(c, explicit=False):
+    """the real one-liner with exactly the case's keyword set (explicit=False), or the ensemble configured by hand through
+    the class API according to what the keywords are documented to mean (explicit=True; same seeds): the reference the
+    one-liner's members are compared with.  The ensemble object the one-liner builds is captured from its `Solve` call."""
+    import mystic.ensemble as ME
+    from mystic.termination import state as tstate
+    from mystic.monitors import Monitor
+    _random.seed(c["seed"]); np.random.seed(c["seed"])
+    tape = Tape()
+    cost, cons, pen = make_functions(c, tape)
+    kw = c["kw"]; omit = set(kw["omit"]); enone = set(kw["none"])
+    cls = nested_class(c["nested"])
+    obs = {"err": None, "states": []}
+    had_np = "NP" in cls.__dict__; old_np = cls.__dict__.get("NP")
+    EC = getattr(ME, ENS_CLASS[c["kind"]])
+    had_solve = "Solve" in EC.__dict__; old_solve = EC.__dict__.get("Solve")
+    cap = {}
+    try:
+        if c.get("NP"):
+            cls.NP = c["NP"]
+        the_map = make_map(c, tape)
+        d = None
+        if c.get("dist"):
+            from mystic.math import Distribution
+            d = Distribution(np.random.normal, 0.0, c["dist"])
+        elif c.get("sdist"):
+            d = make_dist(c["sdist"], c["ranges"][0], c["ranges"][1], tape.dist_log, 0)
+        first = c["N"] if "N" in c else (tuple(c["nbins"]) if "nbins" in c else c["npts"])
+        args = (0.0,) if kw["args"] else ()
+        fcost = the_cost_args if kw["args"] else cost
+        cb = the_callback if kw["callback"] else None
+        mons = (Monitor(), Monitor()) if kw["monitors"] else None
+
+        def rec_ip(ens):
+            ip = ens._InitialPoints
+
+            def f():
+                pts = ip()
+                tape.iv = [vecf(x) for x in pts]
+                return pts
+            ens._InitialPoints = f
+        if not explicit:
+            inherited = EC.Solve
+
+            def rec_solve(self, *a, **k):
+                cap["ens"] = self; cap["solve_kw"] = sorted(k)
+                rec_ip(self)
+                return inherited(self, *a, **k)
+            EC.Solve = rec_solve
+            fn = getattr(ME, c["kind"])
+            k = dict(disp=0)
+            pos = [fcost, c["dim"]]
+            if not ({"nbins", "npts"} & omit):
+                pos.append(first)
+            if kw["full_output"]:
+                k["full_output"] = 1
+            if kw["retall"]:
+                k["retall"] = 1
+            if args:
+                k["args"] = args
+            if cb is not None:
+                k["callback"] = cb
+            if "solver" not in omit:
+                k["solver"] = cls
+            if "ftol" not in omit:
+                k["ftol"] = c["ftol"]
+            if "gtol" not in omit:
+                k["gtol"] = c["gtol"]
+            for i, nm in enumerate(("maxiter", "maxfun")):
+                if nm not in omit:
+                    k[nm] = c["limits"][i]
+            if c.get("ranges"):
+                lo, hi, tight, clip = c["ranges"]
+                k["bounds"] = list(zip(lo, hi))
+                if "tightrange" not in omit:
+                    k["tightrange"] = tight
+                if "cliprange" not in omit:
+                    k["cliprange"] = clip
+            if cons is not None:
+                k["constraints"] = cons
+            if pen is not None:
+                k["penalty"] = pen
+            if the_map is not None:
+                k["map"] = the_map
+            if c["kind"] == "sparsity" and "rtol" not in omit:
+                k["rtol"] = c["rtol"]
+            if d is not None:
+                k["dist"] = d
+            if kw["id"] is not None:
+                k["id"] = kw["id"]
+            if mons:
+                k["itermon"], k["evalmon"] = mons
+            if kw["step"]:
+                k["step"] = True
+            obs["call"] = {"positional": len(pos), "keywords": sorted(k)}
+            ret = fn(*pos, **k)
+            ens = cap.get("ens")
+            if kw["full_output"]:
+                obs["ret_len"] = len(ret)
+                r6 = ret[:6]
+                obs["ret"] = {"x": vecf(r6[0]), "fval": fnum(r6[1]), "iterations": int(r6[2]), "fcalls": int(r6[3]),
+                              "warnflag": int(r6[4]), "all_fcalls": int(r6[5])}
+                if kw["retall"] and len(ret) > 6:
+                    obs["allvecs_len"] = len(ret[6])
+            else:
+                x = ret[0] if kw["retall"] else ret
+                obs["ret_len"] = 2 if kw["retall"] else 1
+                obs["ret_x_only"] = vecf(x)
+                if kw["retall"]:
+                    obs["allvecs_len"] = len(ret[1])
+        else:
+            # what the keywords are documented to mean, through the class API
+            if c["kind"] == "lattice":
+                ens = ME.LatticeSolver(c["dim"], nbins=first)
+            elif c["kind"] == "buckshot":
+                ens = ME.BuckshotSolver(c["dim"], npts=first)
+            else:
+                ens = ME.SparsitySolver(c["dim"], npts=first, rtol=c.get("rtol"))
+            ens.SetNestedSolver(cls)
+            ens.SetEvaluationLimits(c["limits"][0], c["limits"][1])
+            em, sm = (mons[1], mons[0]) if mons else (Monitor(), Monitor())
+            ens.SetEvaluationMonitor(em); ens.SetGenerationMonitor(sm)
+            if kw["id"] is not None:
+                ens.id = int(kw["id"])
+            if d is not None:
+                ens.SetDistribution(d)
+            if pen is not None:
+                ens.SetPenalty(pen)
+            if cons is not None:
+                ens.SetConstraints(cons)
+            if c.get("ranges"):
+                lo, hi, tight, clip = c["ranges"]
+                ens.SetStrictRanges(list(lo), list(hi), tight=tight, clip=clip)
+            if the_map is not None:
+                ens.SetMapper(the_map)
+            rec_ip(ens)
+            ens.Solve(fcost, termination=requested_termination(c), disp=0, ExtraArgs=args, callback=cb)
+        if ens is None:
+            obs["err"] = "the one-liner never called Solve on an ensemble"
+            return obs, tape
+        ev = ensemble_view(ens)
+        if "ret" not in obs:
+            obs["ret"] = {"x": obs.get("ret_x_only", ev["x"]), "fval": ev["e"], "iterations": ev["gens"], "fcalls": ev["evals"],
+                          "warnflag": None, "all_fcalls": ev["total"]}
+        obs["ens"] = ev
+        obs["ens_cfg"] = ens_cfg_view(ens, tstate)
+        obs["ens_cfg"]["dist_is_given"] = (ens._dist is d)
+        obs["ens_cfg"].pop("dist")
+        obs["ens_class"] = type(ens).__name__
+        obs["members"] = [member_view(m) for m in ens._allSolvers]
+        obs["member_cfg"] = [member_cfg(m, tstate) for m in ens._allSolvers]
+        obs["requested_term"] = tstate(requested_termination(c))
+        obs["n_cost"] = len(tape.cost)
+        obs["iv"] = tape.iv
+        obs["at"] = int(ens.id) if ens.id else 0
+        obs["callbacks"] = tape.callbacks
+        if c["kind"] == "buckshot" and not c.get("sdist"):
+            pass
+        return obs, tape
+    except Exception as e:
+        import traceback
+        obs["err"] = "%s: %s" % (type(e).__name__, e)
+        obs["tb"] = traceback.format_exc()[-1500:]
+        return obs, tape
+    finally:
+        if had_solve:
+            EC.Solve = old_solve
+        elif "Solve" in EC.__dict__:
+            del EC.Solve
+        if had_np:
+            cls.NP = old_np
+        elif "NP" in cls.__dict__:
+            del cls.NP
+
+
+def wrapper_term_findings(c, obs):
+    """each member is subject to the ensemble's termination - for a one-liner: the termination its ftol / gtol arguments stand
+    for (`requested_termination`).  The class of the gtol argument (omitted / None / 0 / positive) is part of the key."""
+    out = []
+    want = obs.get("requested_term")
+    if want is None:
+        return out
+    omit = (c.get("kw") or {}).get("omit", ())
+    for i, mc in enumerate(obs.get("member_cfg") or []):
+        if mc["term"] != want:
+            out.append(("oneliner/%s/member-termination/gtol=%s" % (c["kind"], gtol_class(c)),
+                        "%s(ftol=%s, gtol=%s): member %d runs under %r, the arguments stand for %r" % (
+                            c["kind"], "omitted (1e-4)" if "ftol" in omit else repr(c["ftol"]), "omitted (10)" if "gtol" in omit else repr(c["gtol"]),
+                            i, sorted(mc["term"]), sorted(want))))
+            break
+    return out
+
+
+def monitor_oneliner(c, obs, tape, hist):
+    """what the one-liner adds to the ensemble clauses (those are checked by monitor_ensemble on the captured members): the
+    ensemble it builds and runs IS the one its arguments describe"""
+    out = []
+    if obs.get("err"):
+        return out          # reported by monitor_ensemble (ensemble/raises/...)
+    kw = c["kw"]; kind = c["kind"]
+    key = lambda clause: "oneliner/%s/%s" % (kind, clause)
+    # ---- the return value is the ensemble's report
+    ev = obs["ens"]; r = obs["ret"]
+    want_len = (6 if kw["full_output"] else 1) + (1 if kw["retall"] else 0)
+    if obs["ret_len"] != want_len:
+        out.append((key("return-shape"), "full_output=%r retall=%r: %d values returned, %d documented" % (kw["full_output"], kw["retall"], obs["ret_len"], want_len)))
+    bad = []
+    if not same_vec(r["x"], ev["x"]):
+        bad.append("xopt %r vs bestSolution %r" % (r["x"], ev["x"]))
+    if kw["full_output"]:
+        if not (same_float(r["fval"], ev["e"]) or r["fval"] == ev["e"]):
+            bad.append("fopt %r vs bestEnergy %r" % (r["fval"], ev["e"]))
+        if r["iterations"] != ev["gens"]:
+            bad.append("iter %r vs generations %r" % (r["iterations"], ev["gens"]))
+        if r["fcalls"] != ev["evals"]:
+            bad.append("funcalls %r vs evaluations %r" % (r["fcalls"], ev["evals"]))
+        if r["all_fcalls"] != ev["total"]:
+            bad.append("allfuncalls %r vs _total_evals %r" % (r["all_fcalls"], ev["total"]))
+    if bad:
+        out.append((key("return-not-the-ensembles-report"), "; ".join(bad)))
+    # ---- the ensemble's own settings
+    ec = obs["ens_cfg"]
+    if obs["ens_class"] != ENS_CLASS[kind]:
+        out.append((key("ensemble-class"), "%s() ran a %s" % (kind, obs["ens_class"])))
+    if kind == "sparsity" and ec["rtol"] != c.get("rtol"):
+        out.append((key("ensemble-setting/rtol"), "rtol=%r requested (%s), the SparsitySolver has _rtol=%r" % (c.get("rtol"), "omitted" if "rtol" in kw["omit"] else "given", ec["rtol"])))
+    if (c.get("dist") or c.get("sdist")) and not ec["dist_is_given"]:
+        out.append((key("ensemble-setting/dist"), "the ensemble's distribution is not the `dist` argument"))
+    if kw["id"] is not None and ec["id"] != kw["id"]:
+        out.append((key("ensemble-setting/id"), "id=%r requested, the ensemble has id %r" % (kw["id"], ec["id"])))
+    # ---- the members ran under the termination ftol / gtol stand for (class of the gtol argument in the key)
+    if kw["step"]:
+        bump(hist, "oneliner:step-keyword-given(no-reference-run)")
+        return out
+    # ---- differential: the same ensemble configured by hand (class API, same seeds) leaves the same members
+    ob2, tape2 = run_oneliner(c, explicit=True)
+    _ACTIVE["tape"] = tape
+    if ob2.get("err"):
+        out.append((key("explicit-reference-raises"), "the ensemble configured through the class API raised %s" % ob2["err"]))
+        return out
+    if not same_pts(obs.get("iv") or [], ob2.get("iv") or []):
+        # same seeds, same generator: different starting points mean the point generator was configured differently
+        out.append((key("differs-from-explicit/starting-points"), "%s(%r): starting points %r, the explicitly configured ensemble starts at %r" % (
+            kind, obs.get("call"), (obs.get("iv") or [])[:4], (ob2.get("iv") or [])[:4])))
+        return out
+    ma = [(m["e"], m["x"], m["evals"], m["gens"], m["id"]) for m in obs["members"]]
+    mb = [(m["e"], m["x"], m["evals"], m["gens"], m["id"]) for m in ob2["members"]]
+    same_m = len(ma) == len(mb) and all((x[0] == y[0] or (x[0] is not None and y[0] is not None and same_float(x[0], y[0]))) and same_vec(x[1], y[1]) and x[2:] == y[2:] for x, y in zip(ma, mb))
+    if not same_m:
+        cfgd = [i for i, (a, b) in enumerate(zip(obs["member_cfg"], ob2["member_cfg"])) if {k_: v for k_, v in a.items() if not k_.endswith("_is")} != {k_: v for k_, v in b.items() if not k_.endswith("_is")}]
+        what = ""
+        if cfgd:
+            a = obs["member_cfg"][cfgd[0]]; b = ob2["member_cfg"][cfgd[0]]
+            what = "; member %d is configured differently: %r" % (cfgd[0], {k_: (a[k_], b[k_]) for k_ in a if not k_.endswith("_is") and a[k_] != b[k_]})
+        out.append((key("differs-from-explicit/%s/gtol=%s" % (c["nested"], gtol_class(c))), "%s(%r) left members (energy, solution, evaluations, generations, id) %r; the ensemble configured through the class API with what the arguments stand for left %r%s" % (
+            kind, obs.get("call"), ma[:4], mb[:4], what)))
+        return out
+    e1, e2 = obs["ens"], ob2["ens"]
+    if not ((e1["e"] == e2["e"] or same_float(e1["e"], e2["e"])) and same_vec(e1["x"], e2["x"]) and e1["evals"] == e2["evals"] and e1["total"] == e2["total"] and e1["best_id"] == e2["best_id"]):
+        out.append((key("reports-differently-from-explicit"), "same members, but the one-liner's ensemble reports %r and the explicitly configured one %r" % (
+            {k_: e1[k_] for k_ in ("e", "x", "evals", "gens", "total", "best_id")}, {k_: e2[k_] for k_ in ("e", "x", "evals", "gens", "total", "best_id")})))
+    elif obs["callbacks"] != ob2["callbacks"] or obs["n_cost"] != ob2["n_cost"]:
+        out.append((key("calls-differ-from-explicit"), "callback calls %d vs %d, cost calls %d vs %d" % (obs["callbacks"], ob2["callbacks"], obs["n_cost"], ob2["n_cost"])))
+    else:
+        bump(hist, "oneliner:same-as-explicitly-configured-ensemble")
+    return out
+
+
 def gen_ensrun(rng, tier):
     """ensembles whose WHOLE run the model predicts: Nelder-Mead members (the ensembles' default nested solver), every
     ensemble kind / API / mode / map, ranges, constraints, penalties, limits, terminations; smooth costs (a simplex with
@@ -1039,6 +1561,7 @@ class Tape:
         self.iv = None        # the starting points as generated by `_InitialPoints` (before any member touches them)
         self.created = None   # the member objects as `__init_allSolvers` created them (first map call; kept alive)
         self.dist_log = []    # recorded calls of the ensemble's Distribution
+        self.callbacks = 0    # calls of the user's callback
 
 
 def make_map(c, tape):
@@ -1087,6 +1610,15 @@ def the_cost(x):
     y = dsl.ev(_ACTIVE["cost"], xv)
     tape.cost.append((tape.cur, xv, y))
     return y
+
+
+def the_cost_args(x, shift):
+    """the same cost reached through `args=(shift,)` / `ExtraArgs`: a one-liner that drops `args` raises TypeError"""
+    return the_cost(x) + shift
+
+
+def the_callback(x):
+    _ACTIVE["tape"].callbacks += 1
 
 
 def the_constraints(x):
@@ -1243,11 +1775,36 @@ def run_ensemble(c):
         # number of ensemble `_Step`s taken (step-wise mode): `Step` looks `_Step` up on the instance
         orig_estep = s._Step
         ob["n_ens_steps"] = 0
+        ob["trace"] = []          # after every ensemble `_Step`: (reported energy, the members' energies, id of the best)
+        bound = step_bound(spec)
 
         def cnt_estep(*a, **k):
+            if ob["n_ens_steps"] >= bound:
+                # a loop over `Step` (Solve(step=True)) that is still running although every member must have met the
+                # ensemble's limits long ago: stop it and look at what it left (monitor: step-mode-does-not-stop)
+                raise StepBound(ob["n_ens_steps"])
             ob["n_ens_steps"] += 1
-            return orig_estep(*a, **k)
+            r = orig_estep(*a, **k)
+            if len(ob["trace"]) < 400:
+                try:
+                    ob["trace"].append((fnum(s.bestEnergy), [fnum(e) for e in s._all_bestEnergy], s._is_best()))
+                except Exception:
+                    pass
+            return r
         s._Step = cnt_estep
+
+        def bounded(tag, **kw):
+            """a Solve of the ensemble; a Step loop that does not end is cut off and described"""
+            try:
+                s.Solve(cost, disp=0, **kw)
+            except StepBound:
+                ob["step_bound"] = {"steps": ob["n_ens_steps"], "bound": bound, "limits": list(spec["limits"]),
+                                    "members_terminated": [bool(m.Terminated()) for m in s._allSolvers],
+                                    "member_generations": [int(m.generations) for m in s._allSolvers],
+                                    "ensemble_terminated": bool(s.Terminated()), "tag": tag,
+                                    "ensemble_generations": int(s.generations)}
+                tag = tag + ":cut-off"
+            observe(tag)
 
         def observe(tag):
             st = ensemble_view(s)
@@ -1258,15 +1815,19 @@ def run_ensemble(c):
             ob["states"].append(st)
         with RandPatch() as rp:         # numpy.random.rand passes through unchanged and is recorded (samplepts' matrix)
             if spec["mode"] == "solve":
-                s.Solve(cost, disp=0)
-                observe("solve")
+                bounded("solve")
             elif spec["mode"] == "solve-step":
-                s.Solve(cost, disp=0, step=True)
-                observe("solve-step")
+                bounded("solve-step", step=True)
             else:
                 for k in range(spec["nsteps"]):
                     s.Step(cost, disp=0)
                     observe("step%d" % k)
+                # a SECOND reduction over the same members in the other mode: the members taken this far step by step
+                # are run to completion by Solve() (`_solve` continues every existing member) / Solve(step=True)
+                if spec["mode"] == "steps+solve":
+                    bounded("then-solve")
+                elif spec["mode"] == "steps+solve-step":
+                    bounded("then-solve-step", step=True)
         if spec["kind"] == "buckshot" and not spec.get("sdist") and rp.log and rp.log[0].shape == (spec["dim"], spec["npts"]):
             ob["us"] = rp.log[0].tolist()
         ob["member_cfg"] = [member_cfg(m, tstate) for m in s._allSolvers]
@@ -1311,6 +1872,7 @@ def run_ensemble(c):
             if tape.members is not None:
                 obs["members"] = [member_view(m) for m in tape.members]
                 obs["member_cfg"] = [member_cfg(m, tstate) for m in tape.members]
+            obs["requested_term"] = tstate(requested_termination(c))
             return obs, tape
         inst = None
         if c.get("instance"):
@@ -1375,6 +1937,22 @@ def run_ensemble(c):
             del cls.NP
 
 
+class StepBound(Exception):
+    pass
+
+
+def step_bound(spec):
+    """ensemble Steps after which every member has met the ensemble's limits for certain: a member takes one iteration
+    (at least one evaluation) per ensemble Step, so it stops within max(maxiter, maxfun) + 2 of them; None = no finite
+    limit was set (the nested solver's own defaults, dim * 200 / 1000 at most... per member): a generous constant"""
+    fin = [v for v in spec["limits"] if v is not None]
+    return 2 * max(fin) + 20 if fin else 20000
+
+
+def fnum(v):
+    return None if v is None else float(np.asarray(v, dtype=float).ravel()[0])
+
+
 def clip_box(x, lo, hi):
     return [min(max(v, a), b) for v, a, b in zip(x, lo, hi)]
 
@@ -1390,7 +1968,8 @@ def per_member_counts(tape, n):
 
 
 def member_cfg(m, tstate):
-    return {"useStrict": bool(m._useStrictRange), "min": vecf(m._strictMin), "max": vecf(m._strictMax),
+    return {"cons_given": m._constraints is the_constraints, "pen_given": m._penalty is the_penalty,
+            "useStrict": bool(m._useStrictRange), "min": vecf(m._strictMin), "max": vecf(m._strictMax),
             "tight": m._useTightRange, "clip": m._useClipRange, "maxiter": m._maxiter, "maxfun": m._maxfun,
             "term": tstate(m._termination), "cons_is": id(m._constraints), "pen_is": id(m._penalty),
             "class": type(m).__name__, "dim": int(m.nDim)}
@@ -1399,6 +1978,123 @@ def member_cfg(m, tstate):
 def line_best(members):
     ms = " ".join("(%s %s %d %d %d)" % (f2b(m["e"]), fl(m["x"]), m["evals"], m["gens"], m["id"]) for m in members)
     return "C09 best (prev none) (members (%s))" % ms
+
+
+def line_bestseq(c, ob):
+    """a reduction repeated over the same members: the member lists every reduction saw (after each ensemble Step, after the
+    final Solve of the mixed modes) -> the model threads `_bestSolver` through them as the code does (live member with an
+    in-process map, stale copy with a pickling one)"""
+    sts = ob.get("states") or []
+    if c["api"] != "class" or len(sts) < 2 or any(m["e"] is None or m["id"] is None for st in sts for m in st["members"]) or not sts[0]["members"]:
+        return None
+    steps = " ".join("(" + " ".join("(%s %s %d %d %d)" % (f2b(m["e"]), fl(m["x"]), m["evals"], m["gens"], m["id"]) for m in st["members"]) + ")" for st in sts)
+    return "C09 bestseq (live %s) (steps (%s))" % ("false" if c.get("transport") == "pickle" else "true", steps)
+
+
+def compare_bestseq(c, ob, rep):
+    r = parse_reply(rep)
+    if r[0] != "ok":
+        return ["model replied %r" % rep[:200]]
+    d = []
+    best = r[1]["best"]; sts = ob["states"]
+    if len(best) != len(sts):
+        return ["model returned %d reductions, %d observed" % (len(best), len(sts))]
+    for b, st in zip(best, sts):
+        if b == "none":
+            d.append("%s: the model has no best member" % st["tag"]); break
+        bad = []
+        if not same_float(b2f(b[0]), st["e"]):
+            bad.append("energy model=%r impl=%r" % (b2f(b[0]), st["e"]))
+        if not same_vec(floats_of(b[1]), st["x"]):
+            bad.append("solution model=%r impl=%r" % (floats_of(b[1]), st["x"]))
+        if int(b[2]) != st["evals"]:
+            bad.append("evaluations model=%s impl=%r" % (b[2], st["evals"]))
+        if c["nested"] != "Powell" and int(b[3]) != st["gens"]:
+            bad.append("generations model=%s impl=%r" % (b[3], st["gens"]))
+        if st["best_id"] is not None and int(b[4]) != st["best_id"]:
+            bad.append("best member id model=%s impl=%r" % (b[4], st["best_id"]))
+        if bad:
+            d.append("%s (reduction %d of %d over the same members): %s" % (st["tag"], sts.index(st), len(sts), "; ".join(bad)))
+            break
+    return d
+
+
+def term_tokens(state):
+    """mystic.termination.state(cond) of a primitive condition -> the model's token form"""
+    if len(state) != 1:
+        return ("other", sorted(state))
+    doc, kw = list(state.items())[0]
+    g = lambda v: "none" if v is None else str(int(v))
+    if doc.startswith("NormalizedChangeOverGeneration"):
+        return ("ncog", f2b(kw["tolerance"]), g(kw["generations"]))
+    if doc.startswith("VTRChangeOverGeneration"):
+        return ("vtrcog", f2b(kw["ftol"]), f2b(kw["gtol"]), g(kw["generations"]), f2b(kw["target"]))
+    return ("other", doc)
+
+
+def line_oneliner(c, ob):
+    """the one-liner's arguments -> the members' configuration, by the model (Model/EnsembleRun `oneliner`)"""
+    if ob.get("err") or not ob.get("member_cfg"):
+        return None
+    kw = c.get("kw") or {"omit": [], "id": None}
+    omit = set(kw["omit"])
+    first = "(nbinsInt %d)" % c["N"] if "N" in c else ("(nbins %s)" % nl(c["nbins"]) if "nbins" in c else "(npts %d)" % c["npts"])
+    g = "absent" if "gtol" in omit else ("none" if c["gtol"] is None else str(int(c["gtol"])))
+    ob_ = lambda v: "none" if v is None else ("true" if v else "false")
+    on_ = lambda v: "none" if v is None else str(int(v))
+    if c.get("ranges"):
+        lo, hi, tight, clip = c["ranges"]
+        bnd = "(%s %s)" % (fl(lo), fl(hi))
+    else:
+        bnd = "none"; tight = clip = None
+    return "C09 oneliner (kind %s) (first %s) (ftol %s) (gtol %s) (maxiter %s) (maxfun %s) (bounds %s) (tight %s) (clip %s) (cons %s) (pen %s) (dist %s) (rtol %s) (id %s)" % (
+        c["kind"], first, f2b(c["ftol"]), g, on_(c["limits"][0]), on_(c["limits"][1]), bnd, ob_(tight), ob_(clip),
+        ob_(c.get("constraints") is not None), ob_(c.get("penalty") is not None), ob_(bool(c.get("dist") or c.get("sdist"))),
+        "none" if c.get("rtol") is None else f2b(c["rtol"]), on_(kw.get("id")))
+
+
+def compare_oneliner(c, ob, rep):
+    r = parse_reply(rep)
+    if r[0] != "ok":
+        return ["model replied %r" % rep[:200]]
+    kv = r[1]; d = []
+    cfgs = ob["member_cfg"]; ms = ob["members"]
+    if int(kv["n"]) != len(cfgs):
+        return ["member count model=%s impl=%d" % (kv["n"], len(cfgs))]
+    ec = ob.get("ens_cfg")
+    if ec is not None:
+        if int(kv["at"]) != (int(ec["id"]) if ec["id"] else 0):
+            d.append("ensemble id model=%s impl=%r" % (kv["at"], ec["id"]))
+        mr = None if kv["rtol"] == "none" else b2f(kv["rtol"])
+        if c["kind"] == "sparsity" and not (mr == ec["rtol"]):
+            d.append("rtol model=%r impl=%r" % (mr, ec["rtol"]))
+        if (kv["dist"] == "true") != bool(ec["dist_is_given"]) and (c.get("dist") or c.get("sdist")):
+            d.append("distribution model=%s impl: the ensemble's _dist is%s the argument" % (kv["dist"], "" if ec["dist_is_given"] else " not"))
+    for i, (mm, mc, mv) in enumerate(zip(kv["members"], cfgs, ms)):
+        bad = []
+        if mv["id"] is not None and int(mm[0]) != mv["id"]:
+            bad.append("id model=%s impl=%r" % (mm[0], mv["id"]))
+        tt = term_tokens(mc["term"])
+        if tuple(mm[1]) != tuple(tt):
+            bad.append("termination model=%r impl=%r" % (tuple(mm[1]), tt))
+        for j, nm in enumerate(("maxiter", "maxfun")):
+            if mm[2][j] != "none" and int(mm[2][j]) != mc[nm]:
+                bad.append("%s model=%s impl=%r" % (nm, mm[2][j], mc[nm]))
+        if mm[3] == "none":
+            if mc["useStrict"]:
+                bad.append("strict ranges: none in the model, impl %r..%r" % (mc["min"], mc["max"]))
+        else:
+            tb = lambda t: None if t == "none" else (t == "true")
+            if not mc["useStrict"] or not same_vec(floats_of(mm[3][0]), mc["min"]) or not same_vec(floats_of(mm[3][1]), mc["max"]) or tb(mm[3][2]) != mc["tight"] or tb(mm[3][3]) != mc["clip"]:
+                bad.append("ranges model=%r impl=%r..%r tight=%r clip=%r strict=%r" % (mm[3], mc["min"], mc["max"], mc["tight"], mc["clip"], mc["useStrict"]))
+        if (mm[4] == "true") != bool(mc["cons_given"]):
+            bad.append("constraints given: model=%s impl=%r" % (mm[4], mc["cons_given"]))
+        if (mm[5] == "true") != bool(mc["pen_given"]):
+            bad.append("penalty given: model=%s impl=%r" % (mm[5], mc["pen_given"]))
+        if bad:
+            d.append("member %d: %s" % (i, "; ".join(bad)))
+            break
+    return d
 
 
 def requested_count(c):
@@ -1410,6 +2106,38 @@ def requested_count(c):
             n *= b
         return n
     return c["npts"]
+
+
+def leaders_of(trace):
+    """index of the member with the least energy after every ensemble Step (None where an energy is missing)"""
+    out = []
+    for _, es, _ in trace:
+        out.append(None if (not es or any(e is None or e != e for e in es)) else es.index(min(es)))
+    return out
+
+
+def lead_stats(trace, hist, n):
+    """coverage of 'a repeated reduction over the same members': does the lead change hands, who takes it"""
+    ld = [l for l in leaders_of(trace) if l is not None]
+    if len(ld) < 2:
+        return
+    bump(hist, "lead:runs-with->=2-reductions")
+    ch = [(a, b) for a, b in zip(ld, ld[1:]) if a != b]
+    if not ch:
+        bump(hist, "lead:never-changes"); return
+    bump(hist, "lead:changes-hands")
+    if len(ch) >= 2:
+        bump(hist, "lead:changes-hands->=2-times")
+    if any(b == 0 for _, b in ch):
+        bump(hist, "lead:member-0-overtakes-later")
+    if any(b == n - 1 for _, b in ch):
+        bump(hist, "lead:last-member-overtakes-later")
+    if any(0 < b < n - 1 for _, b in ch):
+        bump(hist, "lead:inner-member-overtakes-later")
+    if any(b < a for a, b in ch):
+        bump(hist, "lead:earlier-member-overtakes-a-later-one")
+    if any(b > a for a, b in ch):
+        bump(hist, "lead:later-member-overtakes-an-earlier-one")
 
 
 def monitor_ensemble(c, obs, tape, hist, tag=""):
@@ -1450,8 +2178,9 @@ def monitor_ensemble(c, obs, tape, hist, tag=""):
         if len(members) != want_n:
             out.append((key("member-count"), "%s: %d members, %d requested" % (where, len(members), want_n)))
         ids = [m["id"] for m in members]
-        if ids != list(range(len(members))):
-            out.append((key("member-ids"), "%s: member ids %r" % (where, ids)))
+        at = obs.get("at") or 0          # `op.id = i + at`, `at` = the ensemble's own id (the one-liners' `id` keyword)
+        if ids != list(range(at, at + len(members))):
+            out.append((key("member-ids"), "%s: member ids %r (ensemble id %r)" % (where, ids, at)))
 
     if c["api"] == "wrapper":
         r = obs["ret"]
@@ -1481,6 +2210,22 @@ def monitor_ensemble(c, obs, tape, hist, tag=""):
                 out.append((key("all-bestSolution"), "%s: _all_bestSolution %r vs the members' best solutions %r" % (st["tag"], st["all_x"], [m["x"] for m in st["members"]])))
             if out:
                 break
+        # step-wise mode, seen from inside: after EVERY ensemble Step of a Solve(step=True) / Step loop the reported energy is
+        # the least of the members' (the reduction is repeated over the same members; whoever leads may change)
+        if not out:
+            for k_, (re_, es_, bid_) in enumerate(obs.get("trace") or []):
+                if re_ is None or any(e is None or e != e for e in es_):
+                    continue
+                if re_ != min(es_):
+                    out.append((key("best-not-minimum"), "%s mode, after ensemble Step %d: reported best energy %r (member id %r), minimum over the members is %r (member %d): %r; leaders so far %r" % (
+                        c["mode"], k_, re_, bid_, min(es_), es_.index(min(es_)), es_, leaders_of(obs["trace"][:k_ + 1])[:40])))
+                    break
+        sb = obs.get("step_bound")
+        if sb:
+            # every member is subject to the ensemble's limits and termination - in step-wise mode as well: once all of
+            # them have stopped, the loop over Step must end
+            out.append((key("step-mode-does-not-stop"), "Solve(step=True) was still taking ensemble Steps after %d of them (limits %r: every member stops within %d): members terminated %r (generations %r), ensemble.Terminated() = %r with generations = %r" % (
+                sb["steps"], sb["limits"], sb["bound"], sb["members_terminated"], sb["member_generations"], sb["ensemble_terminated"], sb["ensemble_generations"])))
         # step-wise mode: a member that has stopped (its own Step() returned a message: STOP record in its step monitor)
         # is not advanced by later ensemble Steps - same result, same counters, no further cost calls
         for a, b in zip(obs["states"], obs["states"][1:]):
@@ -1594,6 +2339,8 @@ def monitor_ensemble(c, obs, tape, hist, tag=""):
             if bad:
                 out.append((key("member-config"), "member %d does not carry the ensemble's configuration (%r requested): %s" % (i, {k: c.get(k) for k in ("ranges", "limits", "termination")}, "; ".join(bad))))
                 break
+        if c["api"] == "wrapper":
+            out += wrapper_term_findings(c, obs)
         if tagged:
             ncon = {}; npen = {}; ncost = {}
             for m, _, _ in tape.con:
@@ -1755,7 +2502,7 @@ def line_ensrun(c, ob, hist):
             return None
         ms = ob["states"][-1]["members"]
         mode = c["mode"]
-    if len(ob["iv"]) != len(ms) or not ms:
+    if len(ob["iv"]) != len(ms) or not ms or ob.get("step_bound"):
         return None
     spec = {"cost": c["cost"], "penalty": c.get("penalty"), "constraints": c.get("constraints"), "ranges": c.get("ranges")}
     N = c["dim"]; lim = c["limits"]
@@ -1778,6 +2525,10 @@ def line_ensrun(c, ob, hist):
         return ("run:solve", "C09 ensolve " + head)
     if mode == "solve-step":
         return ("run:solve-step", "C09 ensteps " + head + " (untilstop true)")
+    if mode == "steps+solve":
+        return ("run:steps", "C09 ensteps " + head + " (nsteps %d) (thensolve true)" % c["nsteps"])
+    if mode == "steps+solve-step":
+        return ("run:steps", "C09 ensteps " + head + " (nsteps %d) (thensolvestep true)" % c["nsteps"])
     return ("run:steps", "C09 ensteps " + head + " (nsteps %d)" % c["nsteps"])
 
 
@@ -1914,6 +2665,8 @@ def compare_ensrun(c, ob, label, rep, hist):
         if d:
             return d
     bump(hist, "ensrun:steps:replayed")
+    if "+" in c["mode"]:
+        bump(hist, "ensrun:%s:replayed" % c["mode"])
     bump(hist, "ensrun:ensemble-steps-replayed", len(steps))
     bump(hist, "ensrun:members-replayed", len(ob["states"][-1]["members"]))
     return d
@@ -1922,20 +2675,24 @@ def compare_ensrun(c, ob, label, rep, hist):
 # =================================================================== one case
 def pick_stream(rng, tier):
     k = rng.random()
-    if k < 0.17:
+    if k < 0.14:
         return "grid"
-    if k < 0.31:
+    if k < 0.26:
         return "lattice"
-    if k < 0.43:
+    if k < 0.36:
         return "samples"
-    if k < 0.57:
+    if k < 0.48:
         return "dsamples"
-    if k < 0.72:
+    if k < 0.60:
         return "rbin"
-    if k < 0.89:
+    if k < 0.77:
         return "ensemble"
-    if k < 0.97:
+    if k < 0.85:
         return "ensrun"
+    if k < 0.90:
+        return "enslead"
+    if k < 0.96:
+        return "oneliner"
     return "fill"
 
 
@@ -1989,11 +2746,28 @@ def run_case(seed, shard, k, tier, stream=None):
         if not c["exact"] and c["N"] > 3 and is_prime(c["N"]):
             bump(hist, "rbin:inexact-prime-recursion")
         rec["nontrivial"] = len(obs["keys"]) >= 3
-    elif st in ("ensemble", "ensrun"):
-        c = gen_ensemble(rng, tier) if st == "ensemble" else gen_ensrun(rng, tier)
-        obs, tape = run_ensemble(c)
+    elif st in ENS_STREAMS:
+        if st == "oneliner":
+            c = gen_oneliner(rng, tier)
+            obs, tape = run_oneliner(c)
+        else:
+            c = gen_ensemble(rng, tier) if st == "ensemble" else (gen_ensrun(rng, tier) if st == "ensrun" else gen_enslead(rng, tier))
+            obs, tape = run_ensemble(c)
         tape2 = obs.pop("_tape2", None)
         rec["monitor"] = monitor_ensemble(c, obs, tape, hist)
+        if st == "oneliner":
+            rec["monitor"] += monitor_oneliner(c, obs, tape, hist)
+            kw_ = c["kw"]
+            bump(hist, "oneliner:%s:%s:gtol=%s" % (c["kind"], c["nested"], gtol_class(c)))
+            for nm in kw_["omit"]:
+                bump(hist, "oneliner:omitted:" + nm)
+            for nm in kw_["none"]:
+                bump(hist, "oneliner:given-as-None:" + nm)
+            for nm in ("full_output", "retall", "args", "callback", "monitors", "step"):
+                if kw_[nm]:
+                    bump(hist, "oneliner:with:" + nm)
+            if kw_["id"] is not None:
+                bump(hist, "oneliner:with:id")
         rec["monitor"] += monitor_template(c, obs, hist)
         if c.get("rerun_solve") and not obs.get("err"):
             rec["monitor"] += monitor_step_vs_solve(c, obs, hist)
@@ -2010,6 +2784,13 @@ def run_case(seed, shard, k, tier, stream=None):
         ln = line_start_dsamples(c, obs, tape)
         if ln is not None:
             rec["lines"].append(("start", ln)); bump(hist, "ens:buckshot-starts-from-distribution")
+        ln = line_bestseq(c, obs) if not obs.get("err") else None
+        if ln is not None:
+            rec["lines"].append(("bestseq", ln)); bump(hist, "ens:repeated-reduction-replayed:%s" % ("stale-copy" if c.get("transport") == "pickle" else "live-member"))
+        if c["api"] == "wrapper":
+            ln = line_oneliner(c, obs)
+            if ln is not None:
+                rec["lines"].append(("oneliner", ln)); bump(hist, "oneliner:configuration-replayed")
         if obs.get("second") is not None:
             c2 = second_spec(c); ob2 = obs["second"]
             rec["monitor"] += monitor_ensemble(c2, ob2, tape2, hist, tag="@reuse")
@@ -2027,6 +2808,9 @@ def run_case(seed, shard, k, tier, stream=None):
         if ln is not None:
             rec["lines"].append(("template", ln))
         bump(hist, "ens:%s:%s:%s:%s:map=%s" % (c["kind"], c["nested"], c["api"], c["mode"], c["map"]))
+        if st == "enslead":
+            bump(hist, "enslead:%s:%s%s" % (c["nested"], c["mode"], ":pickle" if c.get("transport") else ""))
+        lead_stats(obs.get("trace") or [], hist, len(obs["states"][-1]["members"]) if obs.get("states") else 0)
         for f in ("transport", "dist", "sdist", "instance", "reuse"):
             if c.get(f) and not (f in ("instance", "reuse") and c["api"] != "class"):
                 bump(hist, "ens:with-" + f)
@@ -2116,12 +2900,16 @@ def compare(rec, label, line, rep):
         if not (same_float(mv, h["value"]) or mv == h["value"]):     # -0.0 == 0.0: the sign of a zero distance is numpy's
             return ["objective handed to the optimiser at %r (distances %r): model %r impl %r" % (h["x"], h["dists"], mv, h["value"])]
         return []
-    if st in ("ensemble", "ensrun") and label.startswith("run"):
+    if st in ENS_STREAMS and label.startswith("run"):
         if label.startswith("run2:"):
             return compare_ensrun(second_spec(c), obs["second"], label, rep, rec["hist"])
         return compare_ensrun(c, obs, label, rep, rec["hist"])
-    if st == "ensrun":
+    if st in ENS_STREAMS:
         st = "ensemble"
+    if st == "ensemble" and label == "bestseq":
+        return compare_bestseq(c, obs, rep)
+    if st == "ensemble" and label == "oneliner":
+        return compare_oneliner(c, obs, rep)
     if st == "ensemble" and label in ("start", "start2"):
         ob = obs if label == "start" else obs["second"]
         if r[0] != "ok":
@@ -2201,7 +2989,7 @@ def run_cases(specs):
         divs = compare(rec, label, line, rep)
         if divs:
             case = {"gen": rec["gen"], "case": rec["case"], "request": line[:4000], "model": rep[:4000], "impl": trim(rec["obs"])}
-            findings.append(Finding("correspondence", "%s/diverges%s" % ("ensemble" if rec["stream"] == "ensrun" else rec["stream"], "/" + label.split(":")[0] if rec["stream"] in ("ensemble", "ensrun") else ""),
+            findings.append(Finding("correspondence", "%s/diverges%s" % ("ensemble" if rec["stream"] in ENS_STREAMS else rec["stream"], "/" + label.split(":")[0] if rec["stream"] in ENS_STREAMS else ""),
                                     "; ".join(divs)[:1500], case))
     for rec in recs:
         for key, what in rec["monitor"]:
@@ -2233,7 +3021,7 @@ def run_shard(pid, seed, shard, ncases, tier, extra):
             hist[k] = hist.get(k, 0) + v
         if rec.get("nontrivial"):
             nontrivial += 1
-            if len(samples) < 2 and rec["stream"] in ("lattice", "ensemble", "ensrun") and rec["lines"]:
+            if len(samples) < 2 and rec["stream"] in ("lattice",) + ENS_STREAMS and rec["lines"]:
                 samples.append({"gen": rec["gen"], "case": rec["case"], "request": rec["lines"][0][1][:1500],
                                 "model": rec.get("replies", [("", "")])[0][1][:1500], "impl": trim(rec["obs"])})
     return {"evaluations": len(recs), "nontrivial": nontrivial, "model_lines": nlines, "findings": findings,
@@ -2259,7 +3047,7 @@ def witnesses():
 def main(tier, seed):
     t0 = time.time()
     proof = framework.proof_stage(PID, MODULE, THEOREMS, tier)
-    nshards, per = (16, 130) if tier == "quick" else (64, 900)
+    nshards, per = (16, 150) if tier == "quick" else (64, 650)
     run = framework.run_shards("c09", "run_shard", PID, seed, nshards, per, tier)
     run["findings"] = witnesses() + run["findings"]
 
@@ -2284,6 +3072,21 @@ def main(tier, seed):
             "every Step; lattice starting points from the lattice model, buckshot ones from the samplepts model with the recorded rand matrix; "
             "every member's result, counters, id, the reduction, _all_* views, cost calls per member = evaluation-log lengths; runs in which a "
             "simplex has tied energies are skipped and counted), Solve(step=True) re-run in run-to-completion mode and compared; "
+            "stream enslead - a reduction REPEATED over the same members while the lead changes hands: >= 2 members on a multi-well cost "
+            "(min_j a_j|x-c_j|^2 - d_j: wells of different depth and steepness, part of them at / near the lattice cell centres), members running "
+            "for tens of iterations, manual Step loops up to maxiter+3 Steps, Solve(step=True), Steps followed by Solve() / Solve(step=True) (the "
+            "members are continued), every nested solver, map order, pickling transport (the stored best is then a stale copy); the clause "
+            "'reported energy = least member energy' is evaluated after EVERY ensemble Step (also inside Solve(step=True)); the member lists of all "
+            "reductions are replayed by the model with `_bestSolver` threaded (bestseq); a Step loop still running after 2*max(limits)+20 ensemble "
+            "Steps is cut off and reported with what it left (step-mode-does-not-stop); coverage measured: lead changes hands / member 0, an inner, "
+            "the last member overtakes later; "
+            "stream oneliner - the keyword plumbing of lattice() / buckshot() / sparsity(): every documented keyword given / omitted (default) / "
+            "given as None or 0 where that has a meaning (gtol falsy = value-to-reach stop; maxiter, maxfun, rtol, tightrange, cliprange None), first "
+            "argument a tuple / an integer / omitted (8), args, callback, id, itermon/evalmon, full_output/retall, step; the ensemble object the "
+            "one-liner builds is captured from its Solve call: the members' termination must be the one ftol/gtol stand for (built independently "
+            "from mystic.termination), limits / ranges / tight / clip / constraints / penalty / rtol / dist / id as given (model: oneliner), the "
+            "return value must be the ensemble's report, and the run must equal - member by member - the ensemble configured by hand through the "
+            "class API with the same seeds; "
             "fillpts / SparsitySolver._InitialPoints (count and range monitored; npts handling / legacy data dropped replayed with the recorded "
             "diffev results as oracle; the objective handed to the optimiser probed at random points, at a collected point and at exactly the "
             "radius). non-trivial = grid with >= 2 non-empty bins and >= 4 points; "
@@ -2295,6 +3098,8 @@ def main(tier, seed):
           "'total = number of real cost calls' is proved on the model (sum of the members' evaluation-log lengths) and tied to the code by comparing the log lengths with the recorded cost calls per member; member inheritance of bounds/constraints/penalty/limits/termination through copy.deepcopy is checked on the implementation by the monitor and, for Nelder-Mead members, by the replay (a member that ran under other settings diverges)",
           "object identity of the members / 'the nested instance is a template' is proved on a store model (Model/Ensemble.lean, section Template) whose allocation step stands for copy.deepcopy; that deepcopy returns an independent object is observed on every run (identities, snapshot of the instance around each solve), not proved",
           "fillpts: the optimisation runs (diffev) are an oracle of the model; count, 'no legacy point returned' and range (given that each run returns a point of its bounds: C02) are proved for every oracle; the distance objective is modelled from the distances (the metric itself is numpy's)",
+          "the one-liners: what each keyword is documented to mean is written down twice, independently of ensemble.py - in the model (`oneliner`, compared with the captured members' settings) and in the harness (the explicitly configured reference ensemble); 'gtol falsy = VTRChangeOverGeneration(ftol)' is mystic's convention (diffev / fmin_powell / fillpts use it), taken as the meaning of the argument",
+          "a reduction repeated over the same members: `reduce_seq_min` needs 'a member's best energy never increases' (C04) only for the pickling-map mode, where the stored best is a stale copy; whether the map returns the same objects is an input of the model (live = no pickle transport)",
           "step-wise mode = run-to-completion mode is proved for every nested solver but Powell (Finalize moves generations); on the implementation it is monitored by re-running Solve(step=True) cases in run-to-completion mode; known finding F20e (a finished Nelder-Mead member's stored best vertex is clipped into the strict ranges by later ensemble Steps) is the one observed difference"]
     assumptions = ["maps are in-process and order-preserving in their RESULT (any evaluation order); a pickling / process-pool map is not exercised",
                    "costs, constraints and penalties are deterministic DSL closures (deep copy keeps the same function object)",
